@@ -172,6 +172,34 @@ K('c15_from_str_len132', SIG, 'Signature::from_str', {'C15': T, 'C17': T},
   'monolithic: from_str on all 132-character ASCII strings: Ok iff 0x + valid payload', timeout=2400)
 
 # ---------------------------------------------------------------------------
+# C08 / C09 / C20 — typed data
+TD = 'src/typeddata.rs'
+K('c09_encode_uint_range', TD, 'Types::encode_value (uintN arm)', {'C09': Q, 'C08': Q, 'C17': Q},
+  'for all 32 widths N and all 2^256 values the number parser may return: encode_value(uintN, v) is Ok iff v < 2^N, and the word is v as 32 big-endian bytes (serialization::uint::deserialize as callee contract)',
+  complete=True, replay='none')
+K('c09_encode_int_range', TD, 'Types::encode_value (intN arm)', {'C09': Q, 'C08': Q, 'C17': Q},
+  'for all 32 widths N and all 2^256 two\'s complement values: encode_value(intN, v) is Ok iff -2^(N-1) <= v < 2^(N-1), and the word is the sign-extended 32-byte value (ethnum permissive::deserialize::<I256> as callee contract)',
+  complete=True, replay='none')
+K('c09_encode_bytes_n', TD, 'Types::encode_value (bytesN arm)', {'C09': Q, 'C08': Q, 'C17': Q},
+  'for N = 1..32 and every payload of 0..40 bytes: Ok iff the payload has exactly N bytes; the word is the payload left-aligned and zero padded (serialization::bytes::deserialize as callee contract)',
+  complete=True, replay='none', bound='payload length <= 40 (the comparison is on usize; longer payloads take the same branch)')
+K('c08_encode_bool', TD, 'Types::encode_value (bool arm)', {'C08': Q}, 'bool encodes as the 32-byte word 0 / 1', complete=True)
+K('c08_encode_bytes_dynamic', TD, 'Types::encode_value (bytes arm)', {'C08': Q},
+  'dynamic bytes encode as Keccak-256 of exactly the payload (Digest::of as recording callee contract), payloads of 0..40 bytes', complete=False, bound='payload <= 40 bytes', replay='none')
+N('nb_eip712_type_graphs_vs_reference', TD, 'TypedData (encode_type, struct_hash, encode_value, compute)', {'C08': Q},
+  'signing digest, domain separator and message hash equal a reference EIP-712 implementation written from the standard (dependency closure exactly once in name order, primary never repeated, member encodings, arrays, nested structs)',
+  'native: 4368 member lists (1..=3 members over 16 kinds incl. struct refs, nested/fixed arrays, recursive P[]) x 5 helper-struct graphs (independent, chains, shared/repeated deps, mutual recursion) = 21840 documents with conforming values')
+N('nb_eip712_nonconforming_values_refused', TD, 'TypedData value conformance', {'C09': Q, 'C08': Q},
+  'a document is refused exactly when the reference says a value is not a value of its declared type; accepted documents hash to the reference value',
+  'native: all 32 widths x 8 range boundaries x uintN/intN x number/decimal/hex/float spellings; bytesN N-1,N,N+1 for N=1..32; fixed arrays size-1,size,size+1 (size 0..3, also nested); 12 JSON kinds x 12 type kinds; missing/undeclared members; each offending value also nested inside a struct inside an array (3535 documents)')
+N('nb_domain_types_enumerated', TD, 'TypedDataBlob::verify_domain_type / compute', {'C20': Q},
+  'exactly the 31 well-formed EIP712Domain types are accepted (and hash to the reference value); every other sequence, any type substitution, and a missing domain type are refused',
+  'native: all 9331 member sequences of length 0..=5 over the five standard names + one foreign name; 14 type substitutions at every position of each of the 31 well-formed domains; missing EIP712Domain (10452 documents)')
+N('nb_member_kind_grammar', TD, 'MemberKind::{from_str, Display}', {'C08': Q, 'C17': Q},
+  'member type strings parse to the kind the reference grammar assigns and print back unchanged; 64 array suffixes do not overflow the stack',
+  'native: 11 base words + bytes0..40 + uint/int 0..300 with array-suffix combinations up to depth 3 over 4 sizes (55590 strings) + one depth-64 string')
+
+# ---------------------------------------------------------------------------
 # bin crate: C16 key selection, C18 vanity prefix, C19 hex; process-level native stand-ins
 CMD, NEW, CLI = 'src/cmd.rs', 'src/cmd/new.rs', 'tests/verif_native_cli.rs'
 K('c16_private_key_selection', CMD, 'AccountOptions::private_key', {'C16': Q, 'C17': Q},
@@ -217,10 +245,22 @@ NOT_APPLICABLE = {
     'C05': 'try_sign is a single call into k256 RFC 6979 signing; validity, recoverability, low-s and RFC 6979 equality are theorems about secp256k1/HMAC-DRBG in the dependency that neither installed verifier can express',
 }
 _PENDING = 'check not built yet in this session (see DESIGN.md for the planned contracts)'
-for _p in ('C04', 'C06', 'C08', 'C09', 'C11', 'C13', 'C16', 'C17', 'C20'):
+for _p in ('C04', 'C06', 'C11', 'C13', 'C16', 'C17'):
     NOT_APPLICABLE.setdefault(_p, _PENDING)
 
 PROPS = {
+    'C09': dict(level='proof',
+                technique='Kani/CBMC contracts on the real Types::encode_value integer and bytesN arms over all values and widths; native differential stand-in for the JSON / collection layer',
+                claim='The range logic is proved: for every width and every 256-bit value, uintN is accepted iff v < 2^N, intN iff -2^(N-1) <= v < 2^(N-1), bytesN iff the payload has exactly N bytes (payloads up to 40 bytes), with the exact word layout. The remaining clauses (negative numbers for unsigned types in every spelling, fixed array sizes, missing / undeclared members, undefined struct types, wrong JSON kinds, nothing hashed on refusal) are checked only by the bounded native differential against a reference implementation.',
+                note='Callee contracts in the proofs: the JSON-to-integer parsers return any 256-bit value (their own behaviour, e.g. refusing negative numbers, is C13). Bounded, not proved: everything that goes through serde_json::Value / HashMap / Vec<Value> (CBMC does not finish on Value drop glue and BTreeMap). TypedDataBlob::compute ordering ("verified before anything is hashed") is read off natively through refusal results only.'),
+    'C08': dict(level='exploration',
+                technique='bounded stand-in: native differential against a reference EIP-712 implementation written from the standard; Kani contracts only on the atomic word encoders',
+                claim='BOUNDED, not proved: on 21840 enumerated type graphs (1..3 members over 16 kinds, 5 dependency-graph shapes including shared, repeated, self- and mutually-recursive references through arrays) with conforming values the three digests equal the reference implementation; the member type grammar is enumerated (55590 strings). Proved by Kani: the 32-byte word layout of uintN / intN / bytesN / bool and bytes = keccak(payload).',
+                note='encode_type (work list over HashMap/BTreeMap + write!), struct_hash (serde_json::Map) and compute could not be brought within reach of either verifier: Verus has no model of these collections or of serde, CBMC does not terminate on serde_json::Value drop glue / BTreeMap even with every callee stubbed (probed, see DESIGN.md). Keccak-256 is a dependency in both the code and the reference.'),
+    'C20': dict(level='exploration',
+                technique='bounded stand-in: native exhaustive enumeration of domain member sequences against the rule written from the property statement',
+                claim='BOUNDED (exhaustive over the statement\'s own quantifier, not a proof of the code): all 9331 sequences of up to five members over the five standard names plus a foreign name are accepted iff they are a non-empty, strictly order-preserving, duplicate-free selection with the standard types - exactly 31 - and each accepted domain hashes to the reference value; 14 type substitutions at every position and a missing domain type are refused.',
+                note='verify_domain_type (try_fold over a HashMap lookup with closures and anyhow context) is outside Verus\' subset and CBMC did not finish on TypedDataBlob values; sequences longer than five are refused by pigeon-hole (a sixth member repeats a name or is foreign) - argued, not machine-checked. "Before anything is hashed" is not observable natively.'),
     'C18': dict(level='proof',
                 technique='Kani/CBMC contracts on the real Prefix::from_str (per digit count, symbolic content) and Prefix::matches (all prefix lengths x all addresses); native process-level stand-in for the search and threads',
                 claim='Prefix::from_str is proved for 0..5 arbitrary ASCII characters after 0x (quick; 6, 7, 8, 40, 41 in thorough) and for all short texts without 0x: accepted iff hexadecimal in either case, digit values exact, never panics; Prefix::matches is proved for prefix lengths 0-3 and 19-21 bytes (+ nibble) in quick, every length 0..22 in thorough, against all 2^160 addresses. That the generator prints a phrase whose own account matched, for every thread interleaving, is NOT decidable by a sequential contract verifier: covered only by the bounded native CLI stand-in (27 prefixes x 4 thread counts).',
